@@ -25,6 +25,7 @@ CONSTANTS
   CHAIN = TRUE
   WILD = FALSE
   FIXMODEL = "intended"
+  ANYRATIO = FALSE
   BASEMOD = 2
   OFFN = 1
   OFFD = 10
